@@ -23,6 +23,8 @@ TYID = {"d": 0, "i": 1, "c": 2, "b": 6}       # Datatype::encode of MPI_DOUBLE, 
 KEY_RECV0 = "ti-coll-recvcount-zero-omitted"
 KEY_STALE = "replay-test-stale-null-request"
 KEY_SAMEKEY = "replay-same-key-requests-paired-differently"
+KEY_OOO = "replay-same-key-waited-out-of-order"
+SOFT_KEYS = (KEY_STALE, KEY_OOO)      # proposed findings: printed, not failing, until registered in known_findings.txt
 
 
 def gen_samekey_step(rng, n):
@@ -310,7 +312,7 @@ def has_stale(prog):
 def report(ctx, what, case, key):
     """a defect that is not (yet) registered in known_findings.txt is printed and recorded, but does not fail the check
     (the check of the unchanged tree must stay at exit 0); once registered it goes through ctx.violation (KNOWN-FINDING)"""
-    if key == KEY_STALE and KEY_STALE not in core.known_findings().get(ctx.pid, {}):
+    if key in SOFT_KEYS and key not in core.known_findings().get(ctx.pid, {}):
         print("PROPOSED-FINDING: property=%s key=%s %s" % (ctx.pid, key, what[:240]))
         ctx.cov.setdefault("proposed_findings_hit", [])
         if key not in ctx.cov["proposed_findings_hit"]:
@@ -321,6 +323,12 @@ def report(ctx, what, case, key):
 
 def has_samekey(prog):
     return any(st["k"] == "samekey" for st in prog["steps"])
+
+
+def has_out_of_order(prog):
+    """same-key requests waited for in another order than they were posted (hand-written corpus witness only: the TI
+    record of a wait has no request identity, the replay cannot know which one was meant)"""
+    return any(st["k"] == "samekey" and st.get("order", "fifo") != "fifo" for st in prog["steps"])
 
 
 def has_recv0(prog):
@@ -440,8 +448,8 @@ def run(ctx):
     nsamekey_ok = 0
     for pi, prog in enumerate(progs):
         lines, exp = expand(prog)
-        key = KEY_RECV0 if has_recv0(prog) else (KEY_STALE if has_stale(prog) else
-                                                 (KEY_SAMEKEY if has_samekey(prog) else None))
+        key = KEY_RECV0 if has_recv0(prog) else (KEY_STALE if has_stale(prog) else (
+            KEY_OOO if has_out_of_order(prog) else (KEY_SAMEKEY if has_samekey(prog) else None)))
         dates, trace, tr = R.online(prog, lines, "p")
         if dates is None and "loading shared libraries" in str(tr):
             ctx.ensure_simgrid(["simgrid", "smpimain", "smpireplaymain"])    # the shared build was being relinked: wait
